@@ -171,6 +171,7 @@ func TestVerifC02(t *testing.T) {
 	rapid.Check(t, func(t *rapid.T) {
 		var c pmCase
 		c.Regions = pmGenRegions(t, 8, false)
+		c.EntrySize = pmGenEntrySize(t)
 		ks, ke, where, ok := pmGenKernel(t, c.Regions)
 		if !ok {
 			st.Case(c, false, "no-available-region-with-a-whole-frame")
